@@ -181,7 +181,11 @@ pub trait AsyncReadExt: AsyncRead {
         &mut self,
         mut buf: t_alloc!(Vec, u8, A),
     ) -> BufResult<usize, t_alloc!(Vec, u8, A)> {
-        loop_read_to_end!(buf, total: usize, loop self.read(buf.slice(total..)))
+        // Append after the bytes that are already in `buf`, not over them.
+        loop_read_to_end!(buf, total: usize, loop {
+            let len = buf.len();
+            self.read(buf.slice(len..))
+        })
     }
 
     /// Read the exact number of bytes required to fill the vectored buf.
@@ -326,7 +330,11 @@ pub trait AsyncReadAtExt: AsyncReadAt {
         mut buffer: t_alloc!(Vec, u8, A),
         pos: u64,
     ) -> BufResult<usize, t_alloc!(Vec, u8, A)> {
-        loop_read_to_end!(buffer, total: u64, loop self.read_at(buffer.slice(total as usize..), pos + total))
+        // Append after the bytes that are already in `buffer`, not over them.
+        loop_read_to_end!(buffer, total: u64, loop {
+            let len = buffer.len();
+            self.read_at(buffer.slice(len..), pos + total)
+        })
     }
 
     /// Like [`AsyncReadExt::read_vectored_exact`], expect that it reads at a
